@@ -9,7 +9,7 @@ use crate::core::*;
 use crate::gen::*;
 use crate::sut;
 use crate::syntax::*;
-use crate::val::{Outcome, Val, ALL_EV};
+use crate::val::{Ev, Outcome, Val, ALL_EV};
 
 pub struct C14;
 
@@ -70,6 +70,58 @@ impl Monitor for C14 {
             for s in ["2@", "@2", "@(2)", "(2)@", "@@", "@abs(1)", "abs(1)@", "2(@)@", "@.5"] {
                 if ctx.mine() {
                     ctx.check(&Case::new(ev, "no-juxtaposition", s, phs[1 % phs.len()]), &|c, st| self.judge(c, st));
+                }
+            }
+            // @ as the left and as the right operand of every binary operator and two-argument function,
+            // against a small pool of other operands and a dense pool of small placeholder values of
+            // every variant (whole and fractional, Integer and Float, both signs)
+            {
+                let mut ops: Vec<String> = vec!["{a}+{b}", "{a}-{b}", "{a}*{b}", "{a}/{b}", "{a}^{b}", "-{a}^{b}", "({a})^{b}"].into_iter().map(String::from).collect();
+                if has_fact_mod(ev) {
+                    ops.push("{a}%{b}".into());
+                }
+                if has_bitops(ev) {
+                    ops.extend(["{a}<<{b}", "{a}>>{b}", "{a}&{b}", "{a}|{b}"].into_iter().map(String::from));
+                }
+                for (sp, f) in spellings_for(ev) {
+                    if f.arity() == Arity::Two {
+                        ops.push(format!("{}({{a}},{{b}})", sp));
+                    }
+                }
+                let others: Vec<&str> = match ev {
+                    Ev::I64 => vec!["2", "3", "7", "10", "2147483647", "3037000499", "63"],
+                    Ev::Cpx => vec!["2", "3", "0.5", "2i", "(1+i)", "7"],
+                    _ => vec!["2", "3", "7", "10", "2147483647", "3037000499", "0.5", "2.5"],
+                };
+                let mut dense: Vec<Val> = vec![];
+                for k in -6i64..=66 {
+                    match ev {
+                        Ev::F64 => dense.extend([Val::F(k as f64), Val::F(k as f64 + 0.5)]),
+                        Ev::I64 => dense.push(Val::I(k)),
+                        Ev::Dec => dense.extend([Val::D(crate::val::DecV { neg: k < 0, mant: k.unsigned_abs() as u128, scale: 0 }), Val::D(crate::val::DecV { neg: k < 0, mant: k.unsigned_abs() as u128 * 10 + 5, scale: 1 })]),
+                        Ev::Cpx => dense.extend([Val::C(k as f64, 0.0), Val::C(0.0, k as f64), Val::C(k as f64, 1.0)]),
+                        Ev::Num => dense.extend([Val::NI(k), Val::NF(k as f64), Val::NF(k as f64 + 0.5)]),
+                    }
+                }
+                for op in &ops {
+                    for other in &others {
+                        for (pi, p) in dense.iter().enumerate() {
+                            for side in 0..2 {
+                                if !ctx.mine() {
+                                    continue;
+                                }
+                                if ctx.tier == Tier::Quick && (pi + side) % 2 == 1 {
+                                    continue;
+                                }
+                                let lit = match value_expr(p) {
+                                    Some(l) => l,
+                                    None => continue,
+                                };
+                                let (s, ts) = if side == 0 { (op.replace("{a}", "@").replace("{b}", other), op.replace("{a}", &lit).replace("{b}", other)) } else { (op.replace("{a}", other).replace("{b}", "@"), op.replace("{a}", other).replace("{b}", &lit)) };
+                                ctx.check(&Case::pair(ev, "substitution", &s, *p, &ts, Val::zero(ev)), &|c, st| self.judge(c, st));
+                            }
+                        }
+                    }
                 }
             }
             // expressions with 1..n occurrences of @ : literal substitution / reference with @ bound
